@@ -7,8 +7,8 @@ PLAN = {
     "C01": dict(
         quick=[("lit_finish_exit", dict(shuffle=8)), ("lit_foreign_finish", dict(cap=1000, shuffle=6)), ("lit_child_other", dict(cap=1000, shuffle=6)), "lit_local_scope",
                ("lit_spawn_sweep", dict(cap=1000, shuffle=6)), ("par4", dict(shuffle=4)), ("over5_d", dict(cap=600)), ("smp_mixed", dict(cap=1500)), ("tree4", dict(cap=1500)), ("over_recover", dict(cap=800)),
-               ("stress:tree4", dict(rounds=200, threads=6)), ("stress:over5_d", dict(rounds=150, threads=4, cfg=dict(K=2))), "burst:9000", "overlap:1"],
-        thorough=["lit_finish_exit", "lit_foreign_finish", "lit_child_other", "lit_local_scope", "lit_attach_other", "lit_spawn_sweep", "par4", "par5",
+               ("stress:tree4", dict(rounds=200, threads=6)), ("stress:over5_d", dict(rounds=150, threads=4, cfg=dict(K=2))), "burst:9000", "overlap:1", ("reinst4", dict(cap=800))],
+        thorough=["reinst4", ("reinst5", dict(cap=6000, timeout=2400)), "lit_finish_exit", "lit_foreign_finish", "lit_child_other", "lit_local_scope", "lit_attach_other", "lit_spawn_sweep", "par4", "par5",
                   "over5_d", "tree5", ("sim_par3", dict(cap=6000)), ("stress:tree4", dict(rounds=2000, threads=6)), "burst:9000", "overlap:1"],
         vacuity=[("lit_finish_exit", ["FixRecv"])],
     ),
@@ -19,8 +19,8 @@ PLAN = {
     ),
     "C03": dict(
         quick=[("lit_finish_exit_c", dict(shuffle=8)), ("lit_foreign_finish_c", dict(cap=1000, shuffle=6)), ("lit_child_other_c", dict(cap=1000, shuffle=6)), ("par4_c", dict(shuffle=4)),
-               ("att4_c", dict(cap=800)), ("tree4_c", dict(cap=1200)), ("stress:tree4_c", dict(rounds=200, threads=6)), "burstc:9000"],
-        thorough=["lit_finish_exit_c", "lit_foreign_finish_c", "lit_child_other_c", "par4_c", "par5_c", "att4_c", "tree4_c", ("sim_par3_c", dict(cap=6000)), ("stress:tree4_c", dict(rounds=2000, threads=6)), "burstc:9000"],
+               ("att4_c", dict(cap=800)), ("tree4_c", dict(cap=1200)), ("stress:tree4_c", dict(rounds=200, threads=6)), "burstc:9000", "extra:manyroots_c"],
+        thorough=["extra:manyroots_c", "lit_finish_exit_c", "lit_foreign_finish_c", "lit_child_other_c", "par4_c", "par5_c", "att4_c", "tree4_c", ("sim_par3_c", dict(cap=6000)), ("stress:tree4_c", dict(rounds=2000, threads=6)), "burstc:9000"],
         vacuity=[("lit_finish_exit_c", ["FixRecv"])],
     ),
     "C04": dict(
@@ -55,8 +55,8 @@ PLAN = {
     "C09": dict(
         quick=[("over5_d", dict(cap=800, shuffle=3)), ("over5_c", dict(cap=800, shuffle=3)), ("lit_overflow_cancel", dict(cap=500, shuffle=6)),
                ("lit_overflow_finish", dict(cap=500, shuffle=4)), ("lit_overflow_finish_c", dict(cap=500, shuffle=4)),
-               ("over_recover", dict(cap=1000)), ("qlimit5", dict(cap=4000)), ("qlimit_with", dict(cap=2500)), ("scope_q1", dict(cap=1500)), ("slimit5", dict(cap=3000))],
-        thorough=["over5_d", "over5_c", "over6_c", "lit_overflow_finish", "lit_overflow_finish_c", "lit_overflow_cancel", "over_recover", "qlimit5", "qlimit_with", "slimit5"],
+               ("over_recover", dict(cap=1000)), ("qlimit5", dict(cap=4000)), ("qlimit_with", dict(cap=2500)), ("scope_q1", dict(cap=1500)), ("slimit5", dict(cap=3000)), "burstr:7000"],
+        thorough=["burstr:7000", "over5_d", "over5_c", "over6_c", "lit_overflow_finish", "lit_overflow_finish_c", "lit_overflow_cancel", "over_recover", "qlimit5", "qlimit_with", "slimit5"],
         vacuity=[("over5_d", ["FixForceStart"]), ("over5_d", ["FixFifo"])],
     ),
     "C10": dict(
